@@ -313,6 +313,7 @@ func (r *runtime) InstantiateModule(
 	if err = r.failIfClosed(); err != nil {
 		return nil, err
 	}
+	wasm.VerifYield("instantiate:after-failifclosed", nil)
 
 	code := compiled.(*compiledModule)
 	config := mConfig.(*moduleConfig)
